@@ -5,10 +5,17 @@
 macro_rules! quick_types {
     ($m:ident, $run:expr) => {
         $m!($run;
-            bnum::BUintD8<1>, bnum::BIntD8<1>, bnum::BUintD8<3>, bnum::BIntD8<3>, bnum::BUintD8<25>, bnum::BIntD8<25>,
+            // narrow: one digit and three digits of every digit type (8 ... 96 bits)
+            bnum::BUintD8<1>, bnum::BIntD8<1>, bnum::BUintD8<3>, bnum::BIntD8<3>,
             bnum::BUintD16<1>, bnum::BIntD16<1>, bnum::BUintD16<3>, bnum::BIntD16<3>,
             bnum::BUintD32<1>, bnum::BIntD32<1>, bnum::BUintD32<3>, bnum::BIntD32<3>,
-            bnum::BUint<1>, bnum::BInt<1>, bnum::BUint<3>, bnum::BInt<3>);
+            bnum::BUint<1>, bnum::BInt<1>,
+            // wide (above the 128-bit fast paths), digit counts that are not multiples of any digit-width
+            // ratio, ordered so that every ordered pair of digit types has a strictly wider and a strictly
+            // narrower target: 136 < 144 < 160 < 192 < 200 < 208 < 224 bits
+            bnum::BUintD8<17>, bnum::BIntD8<17>, bnum::BUintD16<9>, bnum::BIntD16<9>, bnum::BUintD32<5>, bnum::BIntD32<5>,
+            bnum::BUint<3>, bnum::BInt<3>,
+            bnum::BUintD8<25>, bnum::BIntD8<25>, bnum::BUintD16<13>, bnum::BIntD16<13>, bnum::BUintD32<7>, bnum::BIntD32<7>);
     };
 }
 /// the thorough list (a superset)
